@@ -96,6 +96,8 @@ func runMux(id int, c *muxCase, via string, short string) muxLine {
 	if c.Msg.Req {
 		flags = diam.RequestFlag
 	}
+	// the other header flags do not take part in the choice of the handler: P, E (with R: a request all the same), T
+	flags |= []uint8{0, 0x40, 0x20, 0x10, 0x60, 0x70, 0x0f}[id%7]
 	m := diam.NewMessage(c.Msg.Code, flags, c.Msg.App, 11, 22, dict.Default)
 	if via == "direct+warm" {
 		// the mux has already dispatched a message with the same application, code and R bit that carried
